@@ -184,7 +184,9 @@ UPDATES = {
                          "opcode predicates decided per opcode",
             "text": "Extracts the loader's complete transition/outcome table (every opcode in every (function open, block open) state: error variant, or the single container the instruction value ends "
                     "up in, objects created/handed over, next state) and compares it with the reference automaton of the property statement; also reachability of the bad state, absence of failing "
-                    "unwraps in reachable states, single move of the instruction. Exhaustive at the abstraction the statement uses."},
+                    "unwraps in reachable states, single move of the instruction. The instruction is shaped after its grammar row with unknown operand payloads (a placement that depends on a "
+                    "payload is reported), an equal instruction already sits in every list, and every case is repeated with a finished function in the module and a finished block in the "
+                    "open function (the outcome must not differ). Histories are covered through the automaton states plus these variants, not enumerated."},
     "C06": {"technique": "static analysis: every instruction-emitting Builder method summarised (generated ones by their template shape, hand-written ones by " + EV + ") and joined with the "
                          "loader's table and the grammar table",
             "text": "For every instruction-emitting Builder method: the container it emits into equals the container the loader files that opcode into in the corresponding state (R-SECT); "
